@@ -132,6 +132,12 @@ def build_variant(work: Path, tag, files, fmt, variant, r):
                     rc, out = sb.ninja(["-j1", tgt], env=env)
                     if rc != 0:
                         break
+        elif kind == "reused-builddir":
+            # the build directory was used before, for another configuration of the same sources and output file: the
+            # bytes depend on the configuration given NOW, not on what the directory has seen
+            rc, out = sb.run(flags + ["--family", "An Earlier Family", "--ascender", "900"] + args, env=env, cwd=cwd)
+            if rc == 0:
+                rc, out = sb.run(flags + args, env=env, cwd=cwd)
         else:
             rc, out = sb.run(flags + args, env=env, cwd=cwd)
         if rc != 0:
@@ -246,6 +252,7 @@ def run(chk):
             variants += [{"kind": "argperm", "n": 2}, {"kind": "argperm", "n": 3}, {"kind": "hashseed", "seed": 7},
                          {"kind": "hashseed", "seed": 99}, {"kind": "topo", "n": 2}, {"kind": "topo", "n": 3},
                          {"kind": "base", "n": 2}]
+        variants.append({"kind": "reused-builddir"})
         variants.append({"kind": "builddir-in-src"})
         variants.append({"kind": "builddir-symlink"})
         jobs = [(f, v) for f in fmts for v in variants]
